@@ -2,6 +2,7 @@
   Props/C04.lean — C04: reserved work equals remaining work and agrees with the task's dates.
 -/
 import PjVerif.Lemmas.SchedC04
+import PjVerif.Lemmas.ScheduleSrc
 namespace Pj
 
 /-- forward schedules: conservation, at most one row per task and day, rows inside [start day, end) and never
@@ -22,5 +23,43 @@ theorem C04_backward (env : Env) (f0 : Uid → Fields) (res0 : List (Option Nat 
     c04Amount env f0 o = true ∧ c04OncePerDay o = true ∧ c04Window env false o = true ∧ c04None env f0 o = true ∧
     c04BwdStartFirstDay env f0 o = true := by
   exact C04.backwardCalc_c04 env f0 res0 o hf hn h
+
+/-! ### the tie of the inner loops to the current source, by translation
+
+`tools/extract_schedule.py` translates, on every run, `_ResourceUsage.reserved / reserve / __get_key` and the methods
+`__get_resource_nearest_available_date` / `__shift_by_resource_usage_and_calendar` of both schedulers (schedule.py) into
+PyLite terms (Extracted/ScheduleSrc.lean); calls that leave a method run the translated source of the callee (the ledger
+methods, resource.py, calendar.py).  The theorems say that running the translated source on a ledger is the model's
+function - with the model's `used` being what `reserved` returns on that ledger for the scheduler's balance setting - and
+that the ledger afterwards is the old one plus the model's rows.  A semantic edit of those methods breaks these proofs. -/
+
+/-- forward `__get_resource_nearest_available_date` as translated = the model's `nearestFwd`; the ledger is not touched -/
+theorem C04_source_nearest_forward (cal : Cal) (b : Bool) (rows : List Row) (r : Option Nat) (t : Uid) (start : Time) :
+    SchedSrc.interpNearestFwd cal b (SchedSrc.resRef r) t (rows.map SchedSrc.encRow) start =
+      (nearestFwd cal (SchedSrc.usedOf rows r t b) start).map (fun e => (e, rows.map SchedSrc.encRow)) :=
+  SchedSrc.interpNearestFwd_eq cal b rows r t start
+
+/-- forward `__shift_by_resource_usage_and_calendar` as translated = the model's `shiftFwd`, and the ledger afterwards is
+    the old one followed by the model's rows -/
+theorem C04_source_shift_forward (fuel : Nat) (cal : Cal) (b : Bool) (rows : List Row) (r : Option Nat) (t : Uid)
+    (start : Time) (left : Rat) (hf : Extracted.fwdShiftMaxSteps < fuel) :
+    SchedSrc.interpShiftFwd fuel cal b (SchedSrc.resRef r) t (rows.map SchedSrc.encRow) start left =
+      (shiftFwd cal (SchedSrc.usedOf rows r t b) start left).map
+        (fun p => (p.1, (rows ++ p.2.map (mkRow r t)).map SchedSrc.encRow)) :=
+  SchedSrc.interpShiftFwd_eq fuel cal b rows r t start left hf
+
+/-- backward `__get_resource_nearest_available_date` as translated = the model's `nearestBwd` -/
+theorem C04_source_nearest_backward (cal : Cal) (b : Bool) (rows : List Row) (r : Option Nat) (t : Uid) (start : Time) :
+    SchedSrc.interpNearestBwd cal b (SchedSrc.resRef r) t (rows.map SchedSrc.encRow) start =
+      (nearestBwd cal (SchedSrc.usedOf rows r t b) start).map (fun e => (e, rows.map SchedSrc.encRow)) :=
+  SchedSrc.interpNearestBwd_eq cal b rows r t start
+
+/-- backward `__shift_by_resource_usage_and_calendar` as translated = the model's `shiftBwd` -/
+theorem C04_source_shift_backward (fuel : Nat) (cal : Cal) (b : Bool) (rows : List Row) (r : Option Nat) (t : Uid)
+    (end_ : Time) (left : Rat) (hf : Extracted.bwdShiftMaxSteps < fuel) :
+    SchedSrc.interpShiftBwd fuel cal b (SchedSrc.resRef r) t (rows.map SchedSrc.encRow) end_ left =
+      (shiftBwd cal (SchedSrc.usedOf rows r t b) end_ left).map
+        (fun p => (p.1, (rows ++ p.2.map (mkRow r t)).map SchedSrc.encRow)) :=
+  SchedSrc.interpShiftBwd_eq fuel cal b rows r t end_ left hf
 
 end Pj
